@@ -2,12 +2,11 @@ package main
 
 import (
 	"bytes"
-	"context"
 	"encoding/json"
 	"fmt"
 	"os"
 	"os/exec"
-	"time"
+	"syscall"
 	"runtime/debug"
 	"sort"
 	"strconv"
@@ -172,21 +171,22 @@ func (w *World) getPathInProc(m *fieldmask.FieldMask, root *Ty, path string) (st
 var inChild bool
 
 // getPath: a path containing a backslash may send GetPath into a loop that never advances
-// (found by this harness), so such calls are first tried in a child process under a time limit;
-// a timeout is the outcome "crash" (the model's word for non-termination).
+// (found by this harness), so such calls are first tried in a child process under a CPU-time limit;
+// being killed by it is the outcome "crash" (the model's word for non-termination).
 func (w *World) getPath(c *Case, m *fieldmask.FieldMask, root *Ty, path string) (out string, pkey string, hang bool) {
 	if !inChild && strings.Contains(path, "\\") {
 		x := *c
 		x.Op = "getpath"
 		x.GP = vl.Hex(path)
 		js, _ := json.Marshal(&x)
-		ctx, cancel := context.WithTimeout(context.Background(), 3*time.Second)
-		defer cancel()
-		cmd := exec.CommandContext(ctx, os.Args[0], "child")
+		cmd := exec.Command(os.Args[0], "child")
 		cmd.Stdin = bytes.NewReader(js)
-		cmd.Stderr = nil
-		if _, err := cmd.Output(); err != nil && ctx.Err() != nil {
-			return "crash", "", true
+		if _, err := cmd.Output(); err != nil {
+			if ee, ok := err.(*exec.ExitError); ok {
+				if ws, ok := ee.Sys().(syscall.WaitStatus); ok && ws.Signaled() {
+					return "crash", "", true // killed by its CPU-time limit
+				}
+			}
 		}
 	}
 	out, pkey = w.getPathInProc(m, root, path)
@@ -196,6 +196,11 @@ func (w *World) getPath(c *Case, m *fieldmask.FieldMask, root *Ty, path string) 
 // child: run one getpath case (stdin: Case JSON); used only for its termination.
 func child() error {
 	inChild = true
+	// one second of CPU time is three orders of magnitude more than any terminating call needs;
+	// a CPU limit (not a wall-clock limit) keeps the verdict independent of machine load
+	if err := syscall.Setrlimit(syscall.RLIMIT_CPU, &syscall.Rlimit{Cur: 1, Max: 2}); err != nil {
+		return err
+	}
 	var c Case
 	if err := json.NewDecoder(os.Stdin).Decode(&c); err != nil {
 		return err
